@@ -226,7 +226,8 @@ AllLits == GenNumbers \cup Boundary \cup GenRunes \cup GenStrings \cup GenRaws
 (* the spellings every run uses (the quick tier samples the others) *)
 CoreLits == Boundary \cup GenRunes \cup Wrap("\"", StringElems) \cup Wrap("`", RawElems)
 
-Case(s) == [lit |-> s, kind |-> Kind(s), ctx |-> {x \in Contexts : WF(s, x)},
+Case(s) == LET a == An(s) IN
+           [lit |-> s, kind |-> a.k, ctx |-> DomCtx(a),
             grp |-> IF s \in CoreLits THEN "core" ELSE "derived"]
 
 (* the empty spelling is the start state; every literal is one step away, so that all the *)
